@@ -228,6 +228,7 @@ class World:
         ext["__bool__"] = self.truth
         ext["__module_env__"] = self.module_env
         ext["__class_state__"] = self.class_state
+        ext["__world__"] = self
         ext["__setters__"] = self._setters_of
         self.ext = ext
         for cname, cls in self.classes.items():  # class-level constants / containers: one object per class, shared by all instances
